@@ -110,7 +110,7 @@ Definition build_dict (ks vs : sig) (items : list (value * value)) : res verr va
 Definition of_build (r : res verr value) (rest : bytes) : pr value :=
   match r with Ok v => POk v rest | _ => PBuild end.
 
-Fixpoint pvalue (fuel : nat) (inp : bytes) {struct fuel} : pr value :=
+Fixpoint pvalue (raw : bool) (fuel : nat) (inp : bytes) {struct fuel} : pr value :=
   match fuel with
   | O => PBad
   | S f =>
@@ -133,15 +133,15 @@ Fixpoint pvalue (fuel : nat) (inp : bytes) {struct fuel} : pr value :=
             | None => PBad
             end
           else if beq c "v" then
-            match pvalue f r with POk v r' => POk (VValue v) r' | PBad => PBad | PBuild => PBuild end
+            match pvalue raw f r with POk v r' => POk (VValue v) r' | PBad => PBad | PBuild => PBuild end
           else if beq c "h" then pnum pdec (VFd false) r
           else if beq c "a" then
             match until "[" r with
             | Some (s, r') =>
                 match parse_sig s with
                 | Some es =>
-                    match pitems f "]" r' with
-                    | POk items r'' => of_build (build_array es items) r''
+                    match pitems raw f "]" r' with
+                    | POk items r'' => if raw then POk (VArray es items) r'' else of_build (build_array es items) r''
                     | PBad => PBad | PBuild => PBuild
                     end
                 | None => PBad
@@ -155,8 +155,8 @@ Fixpoint pvalue (fuel : nat) (inp : bytes) {struct fuel} : pr value :=
                 | Some (s2, r2) =>
                     match parse_sig s1, parse_sig s2 with
                     | Some ks, Some vs =>
-                        match pentries f r2 with
-                        | POk items r3 => of_build (build_dict ks vs items) r3
+                        match pentries raw f r2 with
+                        | POk items r3 => if raw then POk (VDict ks vs items) r3 else of_build (build_dict ks vs items) r3
                         | PBad => PBad | PBuild => PBuild
                         end
                     | _, _ => PBad
@@ -169,8 +169,8 @@ Fixpoint pvalue (fuel : nat) (inp : bytes) {struct fuel} : pr value :=
             match r with
             | c2 :: r2 =>
                 if beq c2 "(" then
-                  match pitems f ")" r2 with
-                  | POk items r3 => of_build (struct_build items) r3
+                  match pitems raw f ")" r2 with
+                  | POk items r3 => if raw then POk (VStruct items) r3 else of_build (struct_build items) r3
                   | PBad => PBad | PBuild => PBuild
                   end
                 else PBad
@@ -180,7 +180,7 @@ Fixpoint pvalue (fuel : nat) (inp : bytes) {struct fuel} : pr value :=
       end
   end
 (* after the opening bracket: nothing, or  item (, item)*  then [close] *)
-with pitems (fuel : nat) (close : byte) (inp : bytes) {struct fuel} : pr (list value) :=
+with pitems (raw : bool) (fuel : nat) (close : byte) (inp : bytes) {struct fuel} : pr (list value) :=
   match fuel with
   | O => PBad
   | S f =>
@@ -188,10 +188,10 @@ with pitems (fuel : nat) (close : byte) (inp : bytes) {struct fuel} : pr (list v
       | c :: r =>
           if beq c close then POk [] r
           else
-            match pvalue f inp with
+            match pvalue raw f inp with
             | POk v (c2 :: r2) =>
                 if beq c2 "," then
-                  match pitems f close r2 with
+                  match pitems raw f close r2 with
                   | POk l r3 => (match l with [] => PBad | _ => POk (v :: l) r3 end)
                   | PBad => PBad | PBuild => PBuild
                   end
@@ -202,7 +202,7 @@ with pitems (fuel : nat) (close : byte) (inp : bytes) {struct fuel} : pr (list v
       | [] => PBad
       end
   end
-with pentries (fuel : nat) (inp : bytes) {struct fuel} : pr (list (value * value)) :=
+with pentries (raw : bool) (fuel : nat) (inp : bytes) {struct fuel} : pr (list (value * value)) :=
   match fuel with
   | O => PBad
   | S f =>
@@ -210,13 +210,13 @@ with pentries (fuel : nat) (inp : bytes) {struct fuel} : pr (list (value * value
       | c :: r =>
           if beq c "]" then POk [] r
           else
-            match pvalue f inp with
+            match pvalue raw f inp with
             | POk k (c1 :: r1) =>
                 if beq c1 "=" then
-                  match pvalue f r1 with
+                  match pvalue raw f r1 with
                   | POk v (c2 :: r2) =>
                       if beq c2 "," then
-                        match pentries f r2 with
+                        match pentries raw f r2 with
                         | POk l r3 => (match l with [] => PBad | _ => POk ((k, v) :: l) r3 end)
                         | PBad => PBad | PBuild => PBuild
                         end
@@ -232,8 +232,10 @@ with pentries (fuel : nat) (inp : bytes) {struct fuel} : pr (list (value * value
       end
   end.
 
+(* [raw = false]: containers are built with the model of the public constructors (what the harness does with a case);
+   [raw = true]: the text is taken as the container's content as it stands (reading back what the harness printed) *)
 Definition parse_value (w : bytes) : pr value :=
-  match pvalue (S (length w)) w with POk v [] => POk v [] | POk _ _ => PBad | PBad => PBad | PBuild => PBuild end.
+  match pvalue false (S (length w)) w with POk v [] => POk v [] | POk _ _ => PBad | PBad => PBad | PBuild => PBuild end.
 
 (* ---- printing (the harness' `show`) ---- *)
 Fixpoint joinc (l : list bytes) : bytes :=
@@ -349,6 +351,25 @@ Definition law_class (l : list value) (failing : list bytes) : bytes :=
       else dash
   end.
 
+(* the three values as the implementation printed them back (pr=a,b,c), read without going through the model's constructors *)
+Definition read_printed (obs : bytes) : option (list value) :=
+  match field (B "pr") (words obs) with
+  | Some t =>
+      match pvalue true (S (length t)) t with
+      | POk a (c1 :: r1) =>
+          match pvalue true (S (length r1)) r1 with
+          | POk b (c2 :: r2) =>
+              match pvalue true (S (length r2)) r2 with
+              | POk c [] => if beq c1 "," && beq c2 "," then Some [a; b; c] else None
+              | _ => None
+              end
+          | _ => None
+          end
+      | _ => None
+      end
+  | None => None
+  end.
+
 Definition verdict (predicted obs : bytes) : bytes :=
   if lbeq predicted obs then B "OK" else B "exp=" ++ predicted.
 
@@ -364,7 +385,9 @@ Definition run_law (ws : list bytes) (obs : bytes) : outp :=
               let failing := law_failures o in
               {| o_model := m;
                  o_spec := match failing with [] => B "OK" | _ => B "fail:" ++ joinc failing end;
-                 o_class := law_class l failing |}
+                 (* the class is decided on the values the implementation reports to hold, so that spec and class do not
+                    depend on the model's constructors *)
+                 o_class := match read_printed obs with Some li => law_class li failing | None => dash end |}
           | None => {| o_model := m; o_spec := B "fail:unreadable"; o_class := dash |}
           end
       | PBad, _, _ | _, PBad, _ | _, _, PBad => bad_case
@@ -385,35 +408,35 @@ Definition sv_of_leaf (v : value) : option sv :=
   end.
 
 (* type-directed reader of the std-value syntax *)
-Fixpoint psv (fuel : nat) (t : sig) (inp : bytes) {struct fuel} : pr sv :=
+Fixpoint psv (raw : bool) (fuel : nat) (t : sig) (inp : bytes) {struct fuel} : pr sv :=
   match fuel with
   | O => PBad
   | S f =>
       match t with
       | SVariant =>
           match inp with
-          | c :: r => if beq c "V" then match pvalue (S (length r)) r with POk v r' => POk (XVal v) r' | PBad => PBad | PBuild => PBuild end
+          | c :: r => if beq c "V" then match pvalue raw (S (length r)) r with POk v r' => POk (XVal v) r' | PBad => PBad | PBuild => PBuild end
                       else PBad
           | [] => PBad
           end
       | SArray et =>
           match inp with
           | c :: r => if beq c "[" then
-                        match psvs f (fun _ => et) "]" 0 r with POk l r' => POk (XVec et l) r' | PBad => PBad | PBuild => PBuild end
+                        match psvs raw f (fun _ => et) "]" 0 r with POk l r' => POk (XVec et l) r' | PBad => PBad | PBuild => PBuild end
                       else PBad
           | [] => PBad
           end
       | SDict kt vt =>
           match inp with
           | c :: r => if beq c "<" then
-                        match psvm f kt vt r with POk l r' => POk (XMap kt vt l) r' | PBad => PBad | PBuild => PBuild end
+                        match psvm raw f kt vt r with POk l r' => POk (XMap kt vt l) r' | PBad => PBad | PBuild => PBuild end
                       else PBad
           | [] => PBad
           end
       | SStruct ts =>
           match inp with
           | c :: r => if beq c "(" then
-                        match psvs f (fun i => nth i ts SUnit) ")" 0 r with
+                        match psvs raw f (fun i => nth i ts SUnit) ")" 0 r with
                         | POk l r' => if Nat.eqb (length l) (length ts) then POk (XTup l) r' else PBad
                         | PBad => PBad | PBuild => PBuild
                         end
@@ -422,7 +445,7 @@ Fixpoint psv (fuel : nat) (t : sig) (inp : bytes) {struct fuel} : pr sv :=
           end
       | SUnit | SFd | SMaybe _ => PBad
       | _ =>
-          match pvalue (S (length inp)) inp with
+          match pvalue raw (S (length inp)) inp with
           | POk v r =>
               match sv_of_leaf v with
               | Some x => if sig_eqb (value_signature v) t then POk x r else PBad
@@ -432,7 +455,7 @@ Fixpoint psv (fuel : nat) (t : sig) (inp : bytes) {struct fuel} : pr sv :=
           end
       end
   end
-with psvs (fuel : nat) (ty : nat -> sig) (close : byte) (i : nat) (inp : bytes) {struct fuel} : pr (list sv) :=
+with psvs (raw : bool) (fuel : nat) (ty : nat -> sig) (close : byte) (i : nat) (inp : bytes) {struct fuel} : pr (list sv) :=
   match fuel with
   | O => PBad
   | S f =>
@@ -440,10 +463,10 @@ with psvs (fuel : nat) (ty : nat -> sig) (close : byte) (i : nat) (inp : bytes) 
       | c :: r =>
           if beq c close then POk [] r
           else
-            match psv f (ty i) inp with
+            match psv raw f (ty i) inp with
             | POk x (c2 :: r2) =>
                 if beq c2 "," then
-                  match psvs f ty close (S i) r2 with
+                  match psvs raw f ty close (S i) r2 with
                   | POk l r3 => (match l with [] => PBad | _ => POk (x :: l) r3 end)
                   | PBad => PBad | PBuild => PBuild
                   end
@@ -454,7 +477,7 @@ with psvs (fuel : nat) (ty : nat -> sig) (close : byte) (i : nat) (inp : bytes) 
       | [] => PBad
       end
   end
-with psvm (fuel : nat) (kt vt : sig) (inp : bytes) {struct fuel} : pr (list (sv * sv)) :=
+with psvm (raw : bool) (fuel : nat) (kt vt : sig) (inp : bytes) {struct fuel} : pr (list (sv * sv)) :=
   match fuel with
   | O => PBad
   | S f =>
@@ -462,13 +485,13 @@ with psvm (fuel : nat) (kt vt : sig) (inp : bytes) {struct fuel} : pr (list (sv 
       | c :: r =>
           if beq c ">" then POk [] r
           else
-            match psv f kt inp with
+            match psv raw f kt inp with
             | POk k (c1 :: r1) =>
                 if beq c1 "=" then
-                  match psv f vt r1 with
+                  match psv raw f vt r1 with
                   | POk v (c2 :: r2) =>
                       if beq c2 "," then
-                        match psvm f kt vt r2 with
+                        match psvm raw f kt vt r2 with
                         | POk l r3 => (match l with [] => PBad | _ => POk ((k, v) :: l) r3 end)
                         | PBad => PBad | PBuild => PBuild
                         end
@@ -504,9 +527,13 @@ Definition conv_predict (t : sig) (x : sv) : bytes :=
 Definition run_conv (ty text obs : bytes) : outp :=
   match parse_sig ty with
   | Some t =>
-      match psv (S (S (length text))) t text with
+      match psv false (S (S (length text))) t text with
       | POk x [] =>
           let m := verdict (conv_predict t x) obs in
+          let xi := match words obs with
+                    | [_; _; _; inp; _] => match psv true (S (S (length inp))) t inp with POk y [] => Some y | _ => None end
+                    | _ => None
+                    end in
           let failing :=
             match words obs with
             | [_; _; en; inp; back] =>        (* inp = the std value as the implementation printed it before converting *)
@@ -516,7 +543,10 @@ Definition run_conv (ty text obs : bytes) : outp :=
             end in
           {| o_model := m;
              o_spec := match failing with [] => B "OK" | _ => B "fail:" ++ joinc failing end;
-             o_class := match failing with [] => dash | _ => if tuple_variant x then B "tuple_variant" else dash end |}
+             o_class := match failing with
+                        | [] => dash
+                        | _ => if tuple_variant (match xi with Some y => y | None => x end) then B "tuple_variant" else dash
+                        end |}
       | POk _ _ | PBad => bad_case
       | PBuild => {| o_model := verdict (B "ERR:build") obs; o_spec := dash; o_class := dash |}
       end
